@@ -228,7 +228,7 @@ class TestResult(unittest.TestResult):
 
     def stopTest(self, test):
         # NOTE: In Python 3.12.1 skipped tests may not call startTest()
-        if self._tags is not None:
+        if self._tags is not None and self._tags.parent is not None:
             self._tags = self._tags.parent
         super().stopTest(test)
 
@@ -1631,7 +1631,7 @@ class ExtendedToOriginalDecorator:
         if _veriftrace.enabled:
             _veriftrace.emit("result", res=id(self), name="stopTest")
         # NOTE: In Python 3.12.1 skipped tests may not call startTest()
-        if self._tags is not None:
+        if self._tags is not None and self._tags.parent is not None:
             self._tags = self._tags.parent
         return self.decorated.stopTest(test)
 
@@ -1695,7 +1695,7 @@ class ExtendedToStreamDecorator(CopyStreamResult, StreamSummary, TestControl):
 
     def stopTest(self, test):
         # NOTE: In Python 3.12.1 skipped tests may not call startTest()
-        if self._tags is not None:
+        if self._tags is not None and self._tags.parent is not None:
             self._tags = self._tags.parent
 
     def addError(self, test, err=None, details=None):
